@@ -195,11 +195,51 @@ def fault_files(c, src):
 FAULT_NAME = {"missing": "nofile.a2l", "isdir": "adir.a2l", "missing_nested": "nofile.a2l", "self": "main.a2l", "mutual": "inc"}
 
 
+DECOY_CWD = [None]
+
+
+def make_decoy(root):
+    """the working directory of the harness process: it holds a file for every relative name that occurs in an /include
+    directive of the generated trees, with other content.  Include names are relative to the including file, never to the
+    working directory of the process; a loader that looks there first reads these files."""
+    decoy = os.path.join(vlib.scratch(), "include_decoy_cwd")
+    os.makedirs(decoy, exist_ok=True)
+    names = set()
+    for dirpath, _, files in os.walk(root):
+        for fn in files:
+            try:
+                with open(os.path.join(dirpath, fn), encoding="utf-8") as f:
+                    text = f.read()
+            except (UnicodeDecodeError, OSError):
+                continue
+            for m in re.finditer(r'/include\s+(?:"([^"\n]+)"|([^\s"]+))', text):
+                name = (m.group(1) or m.group(2)).replace("\\", "/")
+                # only names that resolve next to the including file: a name that does not exist there is tried as given
+                # (relative to the working directory) by the pinned loader, and that fallback is not judged
+                if os.path.isfile(os.path.join(dirpath, os.path.normpath(name))):
+                    names.add(name)
+    n = 0
+    for name in sorted(names):
+        norm = os.path.normpath(name)
+        if os.path.isabs(name) or norm.startswith("..") or re.match(r"^[A-Za-z]:", name):
+            continue
+        path = os.path.join(decoy, norm)
+        if os.path.isdir(path):
+            continue
+        os.makedirs(os.path.dirname(path), exist_ok=True)
+        with open(path, "w") as f:
+            f.write('/begin MEASUREMENT decoy_from_the_working_directory "" UBYTE NO_COMPU_METHOD 1 1 0 255 /end MEASUREMENT\n')
+        n += 1
+    DECOY_CWD[0] = decoy
+    return n
+
+
 def run_one(binp, prep, timeout=20):
     p = os.path.join(vlib.scratch(), f"inc_case_{prep['id']}.ndjson")
     vlib.write_ndjson(p, [prep])
     try:
-        r = subprocess.run(["bash", "-c", f"ulimit -v 4000000; exec '{binp}' include-op --cases '{p}'"], stdout=subprocess.PIPE, stderr=subprocess.PIPE, timeout=timeout)
+        r = subprocess.run(["bash", "-c", f"ulimit -v 4000000; exec '{binp}' include-op --cases '{p}'"], stdout=subprocess.PIPE, stderr=subprocess.PIPE, timeout=timeout,
+                           cwd=DECOY_CWD[0])
     except subprocess.TimeoutExpired:
         return {"id": prep["id"], "load": "timeout"}
     for l in r.stdout.decode("utf-8", "replace").splitlines():
@@ -363,7 +403,8 @@ def run_subblocks(binp, rep, tier, root):
         vlib.tool_error(f"vacuity: only {len(prepared)} sub-block cases")
     pth = os.path.join(vlib.scratch(), "inc_subblock_cases.ndjson")
     vlib.write_ndjson(pth, prepared)
-    rc, lines, err = vlib.run_harness(binp, ["include-op", "--cases", pth], timeout=3000)
+    make_decoy(root)
+    rc, lines, err = vlib.run_harness(binp, ["include-op", "--cases", pth], timeout=3000, cwd=DECOY_CWD[0])
     results = {l["id"]: l for l in lines if "id" in l}
     for p, m in zip(prepared, metas):
         judge_subblock(m, results.get(p["id"]) or run_one(binp, p), rep)
@@ -404,7 +445,8 @@ def run(tier, selftest):
     regular = [p for p, c in zip(prepared, cases) if c["fam"] != "fault"]
     pth = os.path.join(vlib.scratch(), "inc_cases.ndjson")
     vlib.write_ndjson(pth, regular)
-    rc, lines, err = vlib.run_harness(binp, ["include-op", "--cases", pth], timeout=3000)
+    ndecoy = make_decoy(root)
+    rc, lines, err = vlib.run_harness(binp, ["include-op", "--cases", pth], timeout=3000, cwd=DECOY_CWD[0])
     results = {l["id"]: l for l in lines if "id" in l}
     for p, c in zip(prepared, cases):
         if c["fam"] == "fault":
@@ -438,6 +480,7 @@ def run(tier, selftest):
         "samples": [cases[0], next(c for c in cases if c["fam"] == "fault")],
         "families": fams,
         "generated_include_trees": ngen,
+        "decoy_files_in_the_working_directory": ndecoy,
         "blocks_of_grammar_elements_taken_from_an_include_file": nsub,
         "distinct_block_tags_included": ntags,
         "expected_violation_config": {"cfg": "MC_Include_Innermost", "violated": res_i.violation},
@@ -446,6 +489,7 @@ def run(tier, selftest):
         cov["binding_mutations_rejected"] = binding
     vlib.write_evidence(PID, tier, "model_checking", cov, [
         "unreadable include is realised as 'path is a directory' (the sandbox runs as root, permission bits do not deny reads)",
+        "the harness process runs in a working directory that holds a file of other content for every relative include name of the generated trees that resolves next to its including file (the loader's fallback for names that do not - the name as given, i.e. relative to the working directory - is not judged)",
         "an include file without elements leaves no trace in the model; its directive is not required in the written file",
         "an unquoted name that begins with a digit or a slash is not read as a file name by the tokenizer: directories that begin with a digit and absolute paths are generated in quoted names only",
         "for an /include inside the A2ML block the model is compared after merge_includes() (the raw A2ML text necessarily differs: directive vs. included text)",
